@@ -92,7 +92,17 @@ func ParsePPSNALUnit(data []byte, spsMap map[uint32]*SPS) (*PPS, error) {
 			// slice_group_id[i] has Ceil(Log2(num_slice_groups_minus1 +1) bits)
 			nrBits := bits.CeilLog2(pps.NumSliceGroupsMinus1 + 1)
 
-			for iGroup := uint(0); iGroup <= pps.NumSliceGroupsMinus1; iGroup++ {
+			pps.PicSizeInMapUnitsMinus1 = reader.ReadExpGolomb()
+			if reader.AccError() != nil {
+				return nil, reader.AccError()
+			}
+			// Each slice_group_id takes nrBits (1..3) bits, so the count is limited by the data left
+			nrBitsLeft := len(data)*8 - reader.NrBitsRead()
+			if nrBitsLeft < 0 || pps.PicSizeInMapUnitsMinus1 >= uint(nrBitsLeft)/uint(nrBits) {
+				return nil, fmt.Errorf("pic_size_in_map_units_minus1 %d too big for %d bits left",
+					pps.PicSizeInMapUnitsMinus1, nrBitsLeft)
+			}
+			for i := uint(0); i <= pps.PicSizeInMapUnitsMinus1; i++ {
 				sgi := reader.Read(nrBits)
 				pps.SliceGroupID = append(pps.SliceGroupID, sgi)
 			}
